@@ -1,15 +1,20 @@
 package c08
 
 import (
+	"crypto/sha256"
+	"encoding/hex"
+	"fmt"
 	"strconv"
 	"strings"
+
+	"github.com/luthersystems/elps/lisp"
 )
 
 // node is the abstract term of the tiny form language the driver enumerates.
 // The reference model interprets the term; the real interpreter receives the
 // term rendered to source text, so the reader is inside the loop.
 type node struct {
-	k    byte // 'i' int, 's' symbol, 't' string literal, 'q' quote, 'l' list, 'P' program string (argument of load-string)
+	k    byte // 'i' int, 's' symbol, 't' string literal, 'q' quote, 'l' list, 'P' program string (argument of load-string), 'F' program file (argument of load-file; s = its location in memFiles)
 	i    int
 	s    string
 	kids []*node
@@ -28,6 +33,32 @@ func nCall(head string, args ...*node) *node {
 }
 func nBadP(tail string, forms ...*node) *node {
 	return &node{k: 'P', kids: forms, tail: tail}
+}
+
+// memLib is the runtime's source library (what load-file reads): an in-memory,
+// read-only table location -> program text, filled while the alphabet is built
+// (package initialisation, one goroutine) and installed in every runtime.
+type memLib map[string]string
+
+func (m memLib) LoadSource(_ lisp.SourceContext, loc string) (string, string, []byte, error) {
+	src, ok := m[loc]
+	if !ok {
+		return "", "", nil, fmt.Errorf("c08: no such source file %q", loc)
+	}
+	return loc, loc, []byte(src), nil
+}
+
+var memFiles = memLib{}
+
+// nF is a program kept in the source library; the term renders as the string
+// literal of its location (derived from the text, so equal programs share one
+// file and the name is stable across runs).
+func nF(forms ...*node) *node {
+	text := renderForms(forms)
+	h := sha256.Sum256([]byte(text))
+	n := &node{k: 'F', kids: forms, s: "c08-" + hex.EncodeToString(h[:6]) + ".lisp"}
+	memFiles[n.s] = text
+	return n
 }
 
 func (n *node) render() string {
@@ -61,6 +92,10 @@ func (n *node) renderTo(b *strings.Builder) {
 	case 'P':
 		b.WriteByte('"')
 		b.WriteString(escapeString(renderForms(n.kids) + n.tail))
+		b.WriteByte('"')
+	case 'F':
+		b.WriteByte('"')
+		b.WriteString(escapeString(n.s))
 		b.WriteByte('"')
 	}
 }
